@@ -8,6 +8,12 @@ Check (C16_cache_bounded : forall ether hw cap evs i tfr, 1 <= cap ->
   nh_run (nh_init ether hw cap) evs = Ok (i, tfr) ->
   Z.of_nat (length (c_storage (if_cache i))) <= cap /\ NoDup (map fst (c_storage (if_cache i)))).
 
+Check (C16_invariant_preserved : forall evs i i' tfr log0,
+  1 <= if_cap i -> cache_wf (if_cap i) (if_cache i) -> cache_inv log0 (if_cache i) ->
+  nh_run i evs = Ok (i', tfr) ->
+  if_cap i' = if_cap i /\ if_ether i' = if_ether i /\ if_hw i' = if_hw i /\
+  cache_wf (if_cap i) (if_cache i') /\ cache_inv (log0 ++ nh_log i evs) (if_cache i')).
+
 Check (C16_unicast_uses_learned_addr : forall ether hw cap evs i tfr dst now i' fr h,
   1 <= cap ->
   nh_run (nh_init ether hw cap) evs = Ok (i, tfr) ->
